@@ -3,10 +3,10 @@ CONSTANTS
   N = 2
   Vals = {0, 5, 6}
   Def = 9
-  Variant = "stale_select"
-  MaxEvents = 4
-  MaxWrites = 3
+  Variant = "code"
+  MaxEvents = 2
+  MaxWrites = 2
 CONSTRAINT Bound
-VIEW MCView
+CONSTRAINT Export
 INVARIANTS View NoStaleCallback DirtyListDrains
 CHECK_DEADLOCK FALSE
